@@ -1,4 +1,4 @@
-import TR.Lemmas.TimeLimiter
+import TR.Lemmas.TimeLimiterOrder
 /-!
 # C06 — the time limiter resolves every call by its deadline
 
@@ -19,6 +19,17 @@ deadline); `x.awake t` = the inner call has finished by `t` or the deadline has 
 call with a deadline that is `x.wakeAt ≤ t`, `x.wakeAt = min(done, deadline)` (`= deadline` for a
 never-completing inner call), see `awake_characterisation`; `newEvents cfg s op` are the events
 `op` appends to the log in state `s`; `serialOf s c` is the serial number of `c`'s inner call.
+
+The observable log: `trace cfg ops` is the event log with its instants — every event an operation appends, stamped
+with the instant of the state the operation leads to, exactly what the driver prints and the correspondence check
+compares with the implementation's log (`trace_is_the_log`: without the instants it is `State.log`).  The
+theorems named `log_…` and `resolves_no_later_than_timeout`, `one_result_per_caller`, `result_lines_are_history`
+speak about lines `(t, Ev.result c r)` / `(t, Ev.innerCall c k)` / `(t, Ev.innerDrop c k)` of that log; the older
+trace theorems over the ghost histories `x.hist` are kept as the lemmas they are proved from.
+`x.wakeup` (Model) is the instant the runtime has been told to poll the caller again: the earliest armed one of
+{inner call's completion, deadline}; `s.woken c`: it has been reached; `PolledWhenWoken cfg c ops`: the schedule `ops`
+never moves the clock past the wake-up of `c` while `c`'s call is pending (the timer fires AT the armed instant and
+the woken caller is polled before time goes on).
 -/
 namespace TR.Props.C06
 open TR TR.TimeLimiter
@@ -594,6 +605,344 @@ theorem zero_timeout_nocancel_detaches (cfg : Cfg) (hc : cfg.cancel = false) (op
   rw [hlist] at hk
   split at hk <;> simp at hk
 
+/-! ## the observable log, and one result per caller -/
+
+/-- `trace` is the event log (`State.log`) with the instant of every line. -/
+theorem trace_is_the_log (cfg : Cfg) (ops : List Op) : (trace cfg ops).map Prod.snd = (run cfg ops).log :=
+  trace_map_snd cfg ops
+
+/-- **The `result` lines of the log are exactly the results of the ghost histories** (log ⊆ hist and hist ⊆ log,
+with the instants and the serial): for a caller that was never refused, `result c r` is a line of the log at
+instant `t` iff `c`'s history holds a result at `t` and `r` is that result rendered with the serial of `c`'s inner
+call.  (The only other `result` lines are the answers to refused arrivals, `Bridge.toHist`; likewise every
+`inner_call` / `inner_done` / `inner_drop` line is the history entry at that instant and vice versa.) -/
+theorem result_lines_are_history (cfg : Cfg) (ops : List Op) (c : Nat) (hnr : ∀ e, Op.refused c e ∉ ops)
+    (t : Nat) (r : Res) :
+    (t, Ev.result c r) ∈ trace cfg ops ↔
+      ∃ x cr, lookup (run cfg ops).callers c = some x ∧ (t, CEv.result cr) ∈ x.hist ∧
+        r = cr.toRes (serialOf (run cfg ops) c) := by
+  constructor
+  · exact result_line_in_hist cfg ops c t r hnr
+  · rintro ⟨x, cr, hx, hm, rfl⟩
+    exact (bridge cfg ops).fromHist c x t _ hx hm
+
+/-- **The lines of a caller in the log, in order, are its history**: for a caller that was never refused, the
+sub-list of the log made of the lines about it (`inner_call`, `inner_done`, `inner_drop`, `result`) is its ghost
+history, entry by entry, in the same order, at the same instants, rendered with the serial of its inner call —
+however the operations and the completions of other callers are interleaved with it (`independent` says what the
+history is: that of the single-caller run). -/
+theorem caller_lines_are_its_history (cfg : Cfg) (ops : List Op) (c : Nat) (hnr : ∀ e, Op.refused c e ∉ ops) :
+    (trace cfg ops).filter (lineOf c) =
+      match lookup (run cfg ops).callers c with
+      | some x => x.hist.map (lineAs c (serialOf (run cfg ops) c))
+      | none => [] :=
+  (lines cfg ops).lines c hnr
+
+/-- **The detached calls that complete in one advance of the clock complete in timer order**: the `inner_done`
+lines an `adv` appends are the completions of the tasks whose latency is over, one per task, sorted by completion
+instant and, within one instant, by the serial of the inner call (the order in which the timers were registered). -/
+theorem advance_completes_in_timer_order (cfg : Cfg) (ops : List Op) (ms : Nat) :
+    let s := run cfg ops
+    newEvents cfg s (.adv ms) = (dueKeyed cfg (s.now + ms) s.kOf s.callers).map (fun d => d.2.2) ∧
+    (dueKeyed cfg (s.now + ms) s.kOf s.callers).Pairwise keyLe ∧
+    (∀ d, d ∈ dueKeyed cfg (s.now + ms) s.kOf s.callers ↔
+      ∃ p ∈ s.callers, ∃ e ∈ (advC cfg (s.now + ms) p.2).2,
+        d = (p.2.doneAt, serialOf s p.1, toEv p.1 (serialOf s p.1) e)) := by
+  intro s
+  exact ⟨newEvents_adv cfg s ms, dueKeyed_sorted cfg _ _ _, mem_dueKeyed cfg _ _ _⟩
+
+/-- **One result per caller**: the log holds at most one `result` line of a caller (that was given a call future:
+never refused) — whatever is done to it afterwards (polled again, dropped, the clock advanced). -/
+theorem one_result_per_caller (cfg : Cfg) (ops : List Op) (c : Nat) (hnr : ∀ e, Op.refused c e ∉ ops) :
+    (trace cfg ops).countP (isResultOf c) ≤ 1 :=
+  one_result_line cfg ops c hnr
+
+/-! ## the wake-up, the poll discipline, and the resolution instant -/
+
+/-- **The wake-up is the poll decision.**  In every reachable state, caller `c` is in the wake set iff its call is
+pending and a poll now resolves it (`awake`: the inner call has finished or the deadline has been reached); a poll
+of a woken caller resolves it (its `result` is the last event of the step), a poll of a pending caller that is
+not woken is silent.  The armed instant lies at or after the first poll, never after the deadline (if there is
+one) and never after the completion of the inner call (if it completes). -/
+theorem woken_iff_poll_resolves (cfg : Cfg) (ops : List Op) (c : Nat) (x : Caller)
+    (hx : lookup (run cfg ops).callers c = some x) :
+    ((run cfg ops).woken c = true ↔ x.outer = .waiting ∧ x.awake (run cfg ops).now) ∧
+    ((run cfg ops).woken c = true → ∃ pre r, newEvents cfg (run cfg ops) (.poll c) = pre ++ [Ev.result c r]) ∧
+    (x.outer = .waiting → (run cfg ops).woken c = false → newEvents cfg (run cfg ops) (.poll c) = []) ∧
+    (∀ w, x.wakeup = some w →
+      x.start ≤ w ∧ (x.unl = false → w ≤ x.start + x.tmo) ∧ (x.sc.out ≠ .never → w ≤ x.start + x.sc.lat)) ∧
+    (x.outer = .waiting → (x.unl = false ∨ x.sc.out ≠ .never) → ∃ w, x.wakeup = some w) := by
+  have hiff := woken_iff_awake (run cfg ops) c x hx
+  refine ⟨hiff, ?_, ?_, ?_, wakeup_some x⟩
+  · intro hwk
+    obtain ⟨hw, ha⟩ := hiff.mp hwk
+    exact (resolves_from_wake cfg ops c x hx hw ha).2
+  · intro hw hnw
+    have hna : ¬ x.awake (run cfg ops).now := by
+      intro ha
+      rw [hiff.mpr ⟨hw, ha⟩] at hnw; cases hnw
+    exact (pending_before_wake cfg ops c x hx hw hna).2
+  · intro w hw
+    exact ⟨wakeup_ge_start x w hw, (wakeup_bounds x w hw).1, (wakeup_bounds x w hw).2⟩
+
+/-- **A call resolves no later than its timeout** — over the log, for a caller that is polled whenever it is
+woken.  Hypothesis `PolledWhenWoken cfg c ops` (the poll discipline, a condition on the operation list alone):
+whenever `ops` advances the clock by `ms`, the wake-up `w` of `c`'s pending call is not passed (`now + ms ≤ w`, or
+`ms = 0`): the runtime's timer fires at the armed instant and the woken caller is polled before time goes on.
+Then every `result c r` line of the log has an instant `t` with
+`first poll ≤ t ≤ first poll + timeout` (the first poll being the instant of `c`'s `inner_call` line), `t` no
+later than the completion of the inner call either, and, for a call with a deadline, `t = min(done, deadline)`
+exactly (`= deadline` for an inner call that never completes): the inner result "at the instant it is available",
+the timeout error "at the deadline". -/
+theorem resolves_no_later_than_timeout (cfg : Cfg) (ops : List Op) (c : Nat)
+    (hd : PolledWhenWoken cfg c ops) (hnr : ∀ e, Op.refused c e ∉ ops)
+    (t : Nat) (r : Res) (hr : (t, Ev.result c r) ∈ trace cfg ops) :
+    ∃ x, lookup (run cfg ops).callers c = some x ∧
+      (∀ t0 k, (t0, Ev.innerCall c k) ∈ trace cfg ops → t0 = x.start) ∧
+      x.start ≤ t ∧
+      (x.unl = false → t ≤ x.start + x.tmo) ∧
+      (x.sc.out ≠ .never → t ≤ x.start + x.sc.lat) ∧
+      x.awake t ∧
+      (x.unl = false → t = x.wakeAt) := by
+  obtain ⟨x, cr, hx, hm, _⟩ := result_line_in_hist cfg ops c t r hnr hr
+  have h1 := inv_reachable cfg ops c x hx
+  have h2 := inv2_reachable cfg ops c x hx
+  have hw := winv_reachable cfg ops c hd x hx
+  have hb := hw.resBefore t cr hm
+  have ha := h1.resLate t cr hm
+  refine ⟨x, hx, ?_, h2.afterStart t _ hm, hb.1, hb.2, ha, ?_⟩
+  · intro t0 k h0
+    obtain ⟨x', hx', hm', _⟩ := call_line_in_hist cfg ops c t0 k h0
+    rw [hx] at hx'; injection hx' with hx'; subst hx'
+    exact h2.calledAt t0 hm'
+  · intro hu
+    have hge := (awake_iff_wakeAt x t hu).mp ha
+    have h3 := hb.1 hu
+    unfold Caller.wakeAt at hge ⊢
+    split
+    · rename_i hn; simp only [hn, if_true] at hge; omega
+    · rename_i hn
+      simp only [hn, if_false] at hge
+      have h4 := hb.2 hn
+      omega
+
+/-- Under the same discipline **a pending call is never overdue**: in every state the schedule reaches, the
+clock has not passed the wake-up of `c`'s pending call — so not its deadline (if it has one) and not the
+completion of its inner call; when the clock stands AT the wake-up the caller is woken, the poll the discipline
+asks for resolves it (`woken_iff_poll_resolves`), and the discipline does not let the clock go on before. -/
+theorem pending_call_never_overdue (cfg : Cfg) (ops : List Op) (c : Nat) (hd : PolledWhenWoken cfg c ops)
+    (x : Caller) (hx : lookup (run cfg ops).callers c = some x) (hw : x.outer = .waiting) :
+    (∀ w, x.wakeup = some w → (run cfg ops).now ≤ w) ∧
+    (x.unl = false → (run cfg ops).now ≤ x.start + x.tmo) ∧
+    (x.sc.out ≠ .never → (run cfg ops).now ≤ x.start + x.sc.lat) ∧
+    ((run cfg ops).woken c = true → ∀ ms, 0 < ms → ¬ PolledWhenWoken cfg c (ops ++ [.adv ms])) := by
+  have hwi := winv_reachable cfg ops c hd x hx
+  refine ⟨hwi.notPast, ?_, ?_, ?_⟩
+  · intro hu
+    obtain ⟨w, hw'⟩ := wakeup_some x hw (Or.inl hu)
+    have := hwi.notPast w hw'
+    have := (wakeup_bounds x w hw').1 hu
+    simp only [Caller.deadline] at this
+    omega
+  · intro hn
+    obtain ⟨w, hw'⟩ := wakeup_some x hw (Or.inr hn)
+    have := hwi.notPast w hw'
+    have := (wakeup_bounds x w hw').2 hn
+    simp only [Caller.doneAt] at this
+    omega
+  · intro hwk ms hms hd'
+    obtain ⟨w, hw', hle⟩ := (woken_iff (run cfg ops) c x hx).mp hwk
+    rcases hd' ops ms [] rfl x w hx hw' with h | h
+    · omega
+    · omega
+
+/-- The same **whatever the readiness history** of the wrapped service: for every readiness behaviour `rd` and every
+requested operation sequence, the state is that of the run of the operations the service saw (`effOps`: arrivals that
+met a `Pending` / failed wrapped service became refusals), so for a caller whose arrival was accepted and who is polled
+whenever woken, every `result` line of the log stands no later than its first poll + timeout. -/
+theorem resolves_no_later_than_timeout_whatever_readiness (cfg : Cfg) (rd : Rd) (ops : List Op) (c : Nat)
+    (hd : PolledWhenWoken cfg c (effOps cfg rd ops)) (hnr : ∀ e, Op.refused c e ∉ effOps cfg rd ops)
+    (t : Nat) (r : Res) (hr : (t, Ev.result c r) ∈ trace cfg (effOps cfg rd ops)) :
+    (runR cfg rd ops).2 = run cfg (effOps cfg rd ops) ∧
+    ∃ x, lookup (runR cfg rd ops).2.callers c = some x ∧ x.start ≤ t ∧
+      (x.unl = false → t ≤ x.start + x.tmo) ∧ (x.unl = false → t = x.wakeAt) := by
+  refine ⟨runR_eq_run cfg rd ops, ?_⟩
+  rw [runR_eq_run]
+  obtain ⟨x, hx, _, h1, h2, _, _, h3⟩ := resolves_no_later_than_timeout cfg _ c hd hnr t r hr
+  exact ⟨x, hx, h1, h2, h3⟩
+
+/-! ## the trace theorems, over the lines of the log -/
+
+/-- **Never early** (log form of `never_resolves_early`): a `result c r` line at instant `t` — whatever the
+schedule — comes at or after the first poll, at an instant at which the inner call had finished or the deadline had
+been reached (`≥ min(done, deadline)`), and the call future is gone afterwards. -/
+theorem log_never_resolves_early (cfg : Cfg) (ops : List Op) (c : Nat) (hnr : ∀ e, Op.refused c e ∉ ops)
+    (t : Nat) (r : Res) (hr : (t, Ev.result c r) ∈ trace cfg ops) :
+    ∃ x, lookup (run cfg ops).callers c = some x ∧ x.outer = .gone ∧ x.start ≤ t ∧ x.awake t ∧
+      (x.unl = false → x.wakeAt ≤ t) := by
+  obtain ⟨x, cr, hx, hm, _⟩ := result_line_in_hist cfg ops c t r hnr hr
+  have h1 := inv_reachable cfg ops c x hx
+  have h2 := inv2_reachable cfg ops c x hx
+  exact ⟨x, hx, h1.resGone t cr hm, h2.afterStart t _ hm, h1.resLate t cr hm,
+    fun hu => (awake_iff_wakeAt x t hu).mp (h1.resLate t cr hm)⟩
+
+/-- **With the inner result** (log form): a `result` line that is not the timeout error is the inner call's own
+outcome, rendered with the serial of that caller's inner call, and its instant is at or after the instant the
+inner call finished. -/
+theorem log_inner_result_is_the_inner_outcome (cfg : Cfg) (ops : List Op) (c : Nat) (hnr : ∀ e, Op.refused c e ∉ ops)
+    (t : Nat) (r : Res) (hr : (t, Ev.result c r) ∈ trace cfg ops) (hnt : r ≠ .timeout) :
+    ∃ x, lookup (run cfg ops).callers c = some x ∧ x.sc.out ≠ .never ∧ x.doneAt ≤ t ∧
+      r = (resOf x.sc.out).toRes (serialOf (run cfg ops) c) := by
+  obtain ⟨x, cr, hx, hm, hrr⟩ := result_line_in_hist cfg ops c t r hnr hr
+  have h2 := inv2_reachable cfg ops c x hx
+  rcases h2.resVal t cr hm with h | h
+  · subst h; exact absurd hrr hnt
+  · exact ⟨x, hx, h.1, h.2.1, by rw [hrr, h.2.2]⟩
+
+/-- **Timeout only if the deadline came first** (log form of `intime_result_never_lost`, with the strict form of
+`timeout_if_later`): a line `result c err:timeout` at instant `t`, for an inner call that completes (ok or error),
+means the call had a deadline, `deadline ≤ t` (it had been reached), `deadline ≤ done`, and the inner call had
+**not finished at `t`** (`t < done`) — the one exception being the first poll of a non-cancelling call with a zero
+timeout over a zero-latency inner call (`done = deadline = t =` the first poll: the tie that goes to the timeout,
+because the timeout is reported before the inner call is even started; `zero_timeout_nocancel_detaches`).  So an
+inner call that finished before its deadline is never answered `err:timeout` in the log, however late the caller is
+polled, in both modes. -/
+theorem log_timeout_only_if_unfinished (cfg : Cfg) (ops : List Op) (c : Nat) (hnr : ∀ e, Op.refused c e ∉ ops)
+    (t : Nat) (hr : (t, Ev.result c .timeout) ∈ trace cfg ops) :
+    ∃ x, lookup (run cfg ops).callers c = some x ∧
+      ((x.sc.out = .ok ∨ ∃ kd, x.sc.out = .err kd) →
+        x.unl = false ∧ x.deadline ≤ t ∧ x.deadline ≤ x.doneAt ∧
+        (t < x.doneAt ∨ (cfg.cancel = false ∧ x.tmo = 0 ∧ x.sc.lat = 0 ∧ t = x.start))) := by
+  obtain ⟨x, cr, hx, hm, hrr⟩ := result_line_in_hist cfg ops c t _ hnr hr
+  have hcr : cr = .timeout := isTimeout_toRes (k := serialOf (run cfg ops) c) (by rw [← hrr]; rfl)
+  subst hcr
+  refine ⟨x, hx, ?_⟩
+  intro hout
+  have h1 := inv_reachable cfg ops c x hx
+  have h2 := inv2_reachable cfg ops c x hx
+  have hnp : x.sc.out ≠ .panic := by rcases hout with h | ⟨kd, h⟩ <;> simp [h]
+  have hnn : x.sc.out ≠ .never := by rcases hout with h | ⟨kd, h⟩ <;> simp [h]
+  have hu := h1.toUnl t hm hnp
+  have hlate : x.deadline ≤ x.doneAt := by
+    rcases h1.toLate t hm hnp with h | h
+    · exact absurd h hnn
+    · exact h
+  have hdue : x.deadline ≤ t := by
+    rcases h1.resLate t _ hm with h | h
+    · exact Nat.le_trans hlate h.2
+    · exact h.2
+  refine ⟨hu, hdue, hlate, ?_⟩
+  rcases h2.strictTo t hm hnp with h | h | h
+  · exact absurd h hnn
+  · exact Or.inl h
+  · by_cases hl : x.sc.lat = 0
+    · exact Or.inr ⟨h.1, h.2.2.1, hl, h.2.2.2⟩
+    · left
+      rw [h.2.2.2]
+      simp only [Caller.doneAt]
+      omega
+
+/-- **Cancel mode drops the inner call at the deadline** (log form of `cancel_drops_at_deadline`): every line
+`result c err:timeout` at `t` is accompanied by the line `inner_drop c k` at the same instant `t` (`k` the serial
+of `c`'s inner call), and `t` is at or after the deadline — exactly the deadline under the poll discipline
+(`resolves_no_later_than_timeout`); the order within the step is given by `cancel_drops_at_deadline`. -/
+theorem log_cancel_drops_at_deadline (cfg : Cfg) (hc : cfg.cancel = true) (ops : List Op) (c : Nat)
+    (hnr : ∀ e, Op.refused c e ∉ ops) (t : Nat) (hr : (t, Ev.result c .timeout) ∈ trace cfg ops) :
+    (t, Ev.innerDrop c (serialOf (run cfg ops) c)) ∈ trace cfg ops ∧
+    ∃ x, lookup (run cfg ops).callers c = some x ∧ x.due t := by
+  obtain ⟨x, cr, hx, hm, hrr⟩ := result_line_in_hist cfg ops c t _ hnr hr
+  have hcr : cr = .timeout := isTimeout_toRes (k := serialOf (run cfg ops) c) (by rw [← hrr]; rfl)
+  subst hcr
+  have h := (inv_reachable cfg ops c x hx).cTimeout hc t hm
+  exact ⟨(bridge cfg ops).fromHist c x t _ hx h.1, x, hx, h.2⟩
+
+/-- **Non-cancel mode runs the inner call to completion** (log form): no `inner_drop` line ever, and once an inner
+call has been started and its latency is over, the log holds its `inner_done` line, at an instant `≥ done`, with
+the caller's serial. -/
+theorem log_nocancel_runs_to_completion (cfg : Cfg) (hc : cfg.cancel = false) (ops : List Op) (c : Nat) (x : Caller)
+    (hx : lookup (run cfg ops).callers c = some x) :
+    (∀ t k, (t, Ev.innerDrop c k) ∉ trace cfg ops) ∧
+    (x.inner ≠ .idle → x.sc.out ≠ .never → x.doneAt ≤ (run cfg ops).now →
+      ∃ t, x.doneAt ≤ t ∧ (t, Ev.innerDone c (serialOf (run cfg ops) c) x.sc.out) ∈ trace cfg ops) := by
+  have hinv := inv_reachable cfg ops c x hx
+  constructor
+  · intro t k h
+    obtain ⟨x', hx', hm, _⟩ := drop_line_in_hist cfg ops c t k h
+    rw [hx] at hx'; injection hx' with hx'; subst hx'
+    exact hinv.ncNoDrop hc t hm
+  · intro hni hne hdone
+    have hfin := (hinv.ncSync hc hni).mpr ⟨hne, hdone⟩
+    obtain ⟨t, h1, h2, _⟩ := hinv.ncDone hc hfin
+    exact ⟨t, h2, (bridge cfg ops).fromHist c x t _ hx h1⟩
+
+/-! ## the first poll, spelled out; panicking inner calls -/
+
+/-- **First poll without cancellation, timeout not zero** (any number of milliseconds `> 0`, or `Duration::MAX`):
+the call is spawned and nothing else — the events are `inner_call` (and `inner_done` at once for a zero latency:
+the task runs right after the poll), never a result: the call future is pending, whatever the latency, and its
+wake-up is armed.  (Zero timeout: `zero_timeout_nocancel_detaches`.) -/
+theorem first_poll_nocancel_spawns_only (cfg : Cfg) (hc : cfg.cancel = false) (ops : List Op) (c : Nat) (x : Caller)
+    (hx : lookup (run cfg ops).callers c = some x) (hf : x.outer = .fresh) (h0 : ¬ (x.unl = false ∧ x.tmo = 0)) :
+    newEvents cfg (run cfg ops) (.poll c) =
+      [Ev.innerCall c (run cfg ops).serial] ++
+        (if x.sc.out ≠ .never ∧ x.sc.lat = 0 then [Ev.innerDone c (run cfg ops).serial x.sc.out] else []) ∧
+    ∃ x', recordAfter cfg (run cfg ops) (.poll c) c = some x' ∧ x'.outer = .waiting ∧
+      x'.inner = (if x.sc.out ≠ .never ∧ x.sc.lat = 0 then .finished else .running) := by
+  obtain ⟨hev, hg, hin⟩ := firstPoll_pos_detached cfg hc (run cfg ops).now x hf h0
+  have hcalled : CEv.called ∈ (pollC cfg (run cfg ops).now x).2 := by rw [hev]; simp
+  have hne := newEvents_first_poll cfg (run cfg ops) c x hx hcalled
+  rw [hev] at hne
+  refine ⟨?_, (pollC cfg (run cfg ops).now x).1, by simp [recordAfter_poll, hx], hg, hin⟩
+  rw [hne]
+  split <;> rfl
+
+/-- **First poll with cancellation**: the inner service is called; a zero-latency inner call delivers its outcome
+in that very poll (also against a zero timeout: the inner future is polled first), else a zero timeout reports the
+timeout and drops the inner call in that very poll, else the call is pending. -/
+theorem first_poll_cancel (cfg : Cfg) (hc : cfg.cancel = true) (ops : List Op) (c : Nat) (x : Caller)
+    (hx : lookup (run cfg ops).callers c = some x) (hf : x.outer = .fresh) :
+    newEvents cfg (run cfg ops) (.poll c) =
+      Ev.innerCall c (run cfg ops).serial ::
+        (if x.sc.out ≠ .never ∧ x.sc.lat = 0 then
+          [Ev.innerDone c (run cfg ops).serial x.sc.out, Ev.result c ((resOf x.sc.out).toRes (run cfg ops).serial)]
+         else if x.unl = false ∧ x.tmo = 0 then [Ev.innerDrop c (run cfg ops).serial, Ev.result c .timeout]
+         else []) := by
+  obtain ⟨hev, _⟩ := firstPoll_cancel cfg hc (run cfg ops).now x hf
+  have hcalled : CEv.called ∈ (pollC cfg (run cfg ops).now x).2 := by rw [hev]; simp
+  have hne := newEvents_first_poll cfg (run cfg ops) c x hx hcalled
+  rw [hev] at hne
+  rw [hne]
+  split
+  · rfl
+  · split <;> rfl
+
+/-- **A panicking inner call** (outside the property's quantifier; stated so that what the code does is on
+record).  Without cancellation the panic stays in the spawned task: the task drops the oneshot's sender, the
+caller — woken at that instant — is told `err:timeout` by its next poll, **also when the deadline has not been
+reached** (`Timeout` stands for "no result will come", lib.rs:202 `result.ok()`); the inner call counts as
+finished (`inner_done … panic`, emitted by the runtime).  With cancellation the panic unwinds through the caller's
+own poll: `inner_done … panic`, then `result panic`. -/
+theorem panicking_inner_call (cfg : Cfg) (ops : List Op) (c : Nat) (x : Caller)
+    (hx : lookup (run cfg ops).callers c = some x) (hw : x.outer = .waiting)
+    (hp : x.sc.out = .panic) (hdone : x.doneAt ≤ (run cfg ops).now) :
+    (run cfg ops).woken c = true ∧
+    (cfg.cancel = false → newEvents cfg (run cfg ops) (.poll c) = [Ev.result c .timeout]) ∧
+    (cfg.cancel = true → newEvents cfg (run cfg ops) (.poll c) =
+      [Ev.innerDone c (serialOf (run cfg ops) c) .panic, Ev.result c .panic]) := by
+  have hinv := inv_reachable cfg ops c x hx
+  have hne : x.sc.out ≠ .never := by simp [hp]
+  refine ⟨(woken_iff_awake _ c x hx).mpr ⟨hw, Or.inl ⟨hne, hdone⟩⟩, ?_, ?_⟩
+  · intro hc
+    have hpp : pollC cfg (run cfg ops).now x = _ :=
+      (pollC_waiting_detached cfg _ x hw hc).trans (pollDetached_inner cfg _ x hinv hc hw hne hdone)
+    rw [newEvents_poll cfg _ c x hx (by simp [hpp]), hpp]
+    simp [toEv, hp, resRx]
+  · intro hc
+    have hpp : pollC cfg (run cfg ops).now x = _ :=
+      (pollC_waiting_cancel cfg _ x hw hc).trans (pollCancel_done _ x hne hdone)
+    rw [newEvents_poll cfg _ c x hx (by simp [hpp]), hpp]
+    simp [toEv, hp, resOf]
+
 /-! ## non-vacuity: concrete histories -/
 
 /-- cancel mode, fixed timeout 10, created at 0 but first polled at 7: deadline 17, not 10;
@@ -723,6 +1072,77 @@ example :
       [.innerCall 1 0, .innerCall 2 1, .innerDone 2 1 (.err 2), .result 1 .timeout, .result 2 (.inner 2 1), .innerDone 1 0 .ok] ∧
     (lookup (run cfg ops).callers 2).map (fun x => (x.start, x.tmo, x.hist)) =
       (lookup (run cfg (ops.filter (Op.ofGroup (fun c => c = 1 || c = 2)))).callers 2).map (fun x => (x.start, x.tmo, x.hist)) := by
+  decide
+
+/-- the poll discipline and the log: cancel mode, timeout 10, callers 1 (latency 4) and 2 (latency 30) first polled at 3;
+the clock stops at 7 = done of caller 1 (woken, polled: its result at 7 = 3 + 4) and at 13 = deadline of caller 2
+(woken, polled: timeout + drop at 13 = 3 + 10): `PolledWhenWoken` holds for both, the hypotheses of
+`resolves_no_later_than_timeout` / `one_result_per_caller` / `log_cancel_drops_at_deadline` are met, the wake set is
+what the theorem says.  A schedule that jumps from 7 to 20 violates the discipline for caller 2, and its timeout
+line then stands at 20 > 13: the hypothesis is needed. -/
+example :
+    let cfg : Cfg := { timeout := 10, cancel := true, dyn := false }
+    let ops := [Op.arrive 1 none ⟨4, .ok⟩, .arrive 2 none ⟨30, .ok⟩, .adv 3, .poll 1, .poll 2, .adv 4, .poll 1,
+                .adv 6, .poll 2, .poll 2, .adv 50]
+    let late := [Op.arrive 1 none ⟨4, .ok⟩, .arrive 2 none ⟨30, .ok⟩, .adv 3, .poll 1, .poll 2, .adv 4, .poll 1,
+                 .adv 13, .poll 2]
+    PolledWhenWoken cfg 1 ops ∧ PolledWhenWoken cfg 2 ops ∧
+    trace cfg ops = [(3, .innerCall 1 0), (3, .innerCall 2 1), (7, .innerDone 1 0 .ok), (7, .result 1 (.ok 0)),
+                     (13, .innerDrop 2 1), (13, .result 2 .timeout)] ∧
+    (trace cfg ops).countP (isResultOf 2) = 1 ∧
+    (trace cfg ops).filter (lineOf 2) = [(3, .innerCall 2 1), (13, .innerDrop 2 1), (13, .result 2 .timeout)] ∧
+    (lookup (run cfg ops).callers 2).map (fun x => x.hist) = some [(3, .called), (13, .dropped), (13, .result .timeout)] ∧
+    (run cfg (ops.take 6)).wakeSet = [1] ∧ (run cfg (ops.take 8)).wakeSet = [2] ∧ (run cfg ops).wakeSet = [] ∧
+    (lookup (run cfg (ops.take 6)).callers 2).map (fun x => (x.wakeup, x.wakeAt, x.deadline)) = some (some 13, 13, 13) ∧
+    ¬ PolledWhenWoken cfg 2 late ∧ PolledWhenWoken cfg 1 late ∧
+    trace cfg late = [(3, .innerCall 1 0), (3, .innerCall 2 1), (7, .innerDone 1 0 .ok), (7, .result 1 (.ok 0)),
+                      (20, .innerDrop 2 1), (20, .result 2 .timeout)] := by
+  decide
+
+/-- the same without cancellation (per-request timeouts): caller 1 (timeout 5, latency 7) is woken by its timer at 5 and told
+`err:timeout` at 5 = 0 + 5, the detached call completes at 7; caller 2 (timeout 9, latency 0) is woken right after its first
+poll (the task has completed at once) and gets the inner result at 0; caller 3 (timeout 0, latency 0): the tie that goes to
+the timeout, reported by the first poll before the inner call is started — the exception in `log_timeout_only_if_unfinished`;
+caller 4 (`Duration::MAX` over a never-completing call): nothing armed, pending for ever. -/
+example :
+    let cfg : Cfg := { timeout := 50, cancel := false, dyn := true }
+    let ops := [Op.arrive 1 (some 5) ⟨7, .ok⟩, .arrive 2 (some 9) ⟨0, .err 1⟩, .arrive 3 (some 0) ⟨0, .ok⟩,
+                .arrive 4 (some .max) ⟨0, .never⟩, .poll 1, .poll 2, .poll 2, .poll 3, .poll 4, .adv 5, .poll 1, .adv 2,
+                .adv 1000, .poll 4]
+    PolledWhenWoken cfg 1 ops ∧ PolledWhenWoken cfg 2 ops ∧ PolledWhenWoken cfg 3 ops ∧ PolledWhenWoken cfg 4 ops ∧
+    trace cfg ops = [(0, .innerCall 1 0), (0, .innerCall 2 1), (0, .innerDone 2 1 (.err 1)), (0, .result 2 (.inner 1 1)),
+                     (0, .result 3 .timeout), (0, .innerCall 3 2), (0, .innerDone 3 2 .ok), (0, .innerCall 4 3),
+                     (5, .result 1 .timeout), (7, .innerDone 1 0 .ok)] ∧
+    (run cfg (ops.take 6)).wakeSet = [2] ∧ (run cfg (ops.take 10)).wakeSet = [1] ∧
+    (lookup (run cfg ops).callers 4).map (fun x => (x.outer, x.wakeup)) = some (.waiting, none) ∧
+    (lookup (run cfg ops).callers 1).map (fun x => x.hist) =
+      some [(0, .called), (5, .result .timeout), (7, .done .ok)] := by
+  decide
+
+/-- hypotheses of the older trace theorems, met by reachable records: a settled state (`settled_none_overdue`), a history
+holding a timeout with its drop (`intime_result_never_lost`, `cancel_drops_at_deadline`), a running detached call before the
+advance that completes it (`nocancel_runs_to_completion`) -/
+example :
+    let cfg : Cfg := { timeout := 10, cancel := true, dyn := false }
+    let ops := [Op.arrive 1 none ⟨4, .ok⟩, .arrive 2 none ⟨11, .err 2⟩, .adv 3, .poll 1, .poll 2, .adv 3]
+    let nc : Cfg := { timeout := 10, cancel := false, dyn := false }
+    Settled cfg (run cfg ops) ∧ ¬ Settled cfg (run cfg (ops ++ [.adv 1])) ∧
+    (lookup (run cfg (ops ++ [.adv 7, .poll 2])).callers 2).map (fun x => (x.hist, x.deadline, x.doneAt)) =
+      some ([(3, .called), (13, .dropped), (13, .result .timeout)], 13, 14) ∧
+    (lookup (run nc [.arrive 1 none ⟨7, .ok⟩, .poll 1]).callers 1).map (fun x => x.inner) = some .running ∧
+    newEvents nc (run nc [.arrive 1 none ⟨7, .ok⟩, .poll 1]) (.adv 7) = [.innerDone 1 0 .ok] := by
+  decide
+
+/-- a panicking inner call (`panicking_inner_call`): without cancellation the caller, woken at 3 by the dropped sender, is told
+`err:timeout` at 3 although its deadline is 10; with cancellation the panic reaches the caller -/
+example :
+    let ops := [Op.arrive 1 none ⟨3, .panic⟩, .poll 1, .adv 3, .poll 1]
+    trace { timeout := 10, cancel := false, dyn := false } ops =
+      [(0, .innerCall 1 0), (3, .innerDone 1 0 .panic), (3, .result 1 .timeout)] ∧
+    (run { timeout := 10, cancel := false, dyn := false } (ops.take 3)).woken 1 = true ∧
+    (lookup (run { timeout := 10, cancel := false, dyn := false } ops).callers 1).map (fun x => x.deadline) = some 10 ∧
+    trace { timeout := 10, cancel := true, dyn := false } ops =
+      [(0, .innerCall 1 0), (3, .innerDone 1 0 .panic), (3, .result 1 .panic)] := by
   decide
 
 end TR.Props.C06
